@@ -144,6 +144,11 @@ func (n *LocalNode) FindSuccessor(key uint64) (chord.VNode, error) {
 	}
 	// find next in ring according to finger table
 	closest := n.closestPrecedingNode(key)
+	if closest.ID() == n.ID() {
+		// no finger precedes the key (e.g. fingers are not repaired yet):
+		// asking ourselves again would recurse forever, ask the successor
+		return succ.FindSuccessor(key)
+	}
 	// contact possibly remote node
 	return closest.FindSuccessor(key)
 }
